@@ -6,10 +6,12 @@ import searches
 import c08
 import c15
 import c20
+import containers
 
 REGISTRY = {'C01': nodeops, 'C02': nodeops, 'C03': nodeops,
-            'C04': searches, 'C05': searches, 'C06': searches, 'C07': searches, 'C09': searches, 'C10': searches, 'C08': c08, 'C15': c15, 'C20': c20}
+            'C04': searches, 'C05': searches, 'C06': searches, 'C07': searches, 'C09': searches, 'C10': searches, 'C08': c08, 'C15': c15, 'C20': c20, 'C11': containers, 'C18': containers}
 EVALUATE = {nodeops: nodeops.evaluate_ctx, searches: searches.evaluate, c08: c08.evaluate, c15: c15.evaluate, c20: c20.evaluate}
+EVALUATE_BY_PROP = {'C11': containers.evaluate_c11, 'C18': containers.evaluate_c18}
 
 
 def replay(prop, path):
@@ -21,7 +23,8 @@ def replay(prop, path):
     obs = mod0.natrun(native, d['scenario']) if hasattr(mod0, 'natrun') else native.run([d['scenario']])[0]
     import scheck
     mod = REGISTRY[prop]
-    bad = scheck.native_evaluator(prop, EVALUATE[mod])({'scen': d['scenario']}, obs)
+    ev = EVALUATE_BY_PROP.get(prop) or EVALUATE[mod]
+    bad = scheck.native_evaluator(prop, ev)({'scen': d['scenario']}, obs)
     print(json.dumps({'native_observations': obs, 'failures': bad}, indent=1))
     if bad:
         print(f'VIOLATION property={prop} replay={path}')
